@@ -77,6 +77,17 @@ def config(name):
         from pySDC.implementations.hooks.log_work import LogSDCIterations
 
         cp['hook_class'] = [LogSolution, LogWork, LogSDCIterations, LogGlobalErrorPostStep]
+    elif base == 'restarts':
+        # every block is computed twice: a deterministic detector (environment) rejects the first attempt of the first
+        # step of every block, so that the last block of every run and of every leg is a recomputation
+        from pySDC.implementations.convergence_controller_classes.basic_restarting import BasicRestartingNonMPI
+
+        P = 2
+        cp['mssdc_jac'] = False
+        cp['hook_class'] = [LogSolution, LogWork]
+        desc['level_params']['restol'] = -1.0
+        desc['step_params']['maxiter'] = 2
+        desc['convergence_controllers'] = {RejectFirstAttempt: {}, BasicRestartingNonMPI: {'max_restarts': 3}}
     elif base == 'adaptive':
         from pySDC.implementations.convergence_controller_classes.adaptivity import Adaptivity
 
@@ -89,7 +100,21 @@ def config(name):
     return P, cp, desc, dt
 
 
-FIXED = ['sdc', 'sdcs', 'lobatto', 'mlsdc', 'pfasst', 'mssdc', 'rk', 'hooks', 'sdc/random', 'pfasst/random']
+from pySDC.core.convergence_controller import ConvergenceController  # noqa: E402
+
+
+class RejectFirstAttempt(ConvergenceController):
+    """environment: asks for a restart of the first step of a block when it has used up its sweeps for the first time"""
+
+    def setup(self, controller, params, description, **kwargs):
+        return {'control_order': 90, **super().setup(controller, params, description, **kwargs)}
+
+    def determine_restart(self, controller, S, **kwargs):
+        if S.status.first and S.status.iter >= S.params.maxiter and not S.status.get('restarts_in_a_row'):
+            S.status.restart = True
+
+
+FIXED = ['sdc', 'sdcs', 'lobatto', 'mlsdc', 'pfasst', 'mssdc', 'rk', 'hooks', 'restarts', 'sdc/random', 'pfasst/random']
 ALL = FIXED + ['adaptive']
 
 
@@ -306,7 +331,7 @@ def run(rep, tier):
         'continuation time = end time of the last step as logged by the first part (the float the controller itself accumulated)',
         'adaptive configuration only takes part in run() (the re-run / split clauses of the property are for fixed step sizes)',
     ]
-    names = ALL if tier == 'thorough' else ['sdc', 'lobatto', 'pfasst', 'mssdc', 'hooks', 'rk', 'sdc/random', 'adaptive']
+    names = ALL if tier == 'thorough' else ['sdc', 'lobatto', 'pfasst', 'mssdc', 'hooks', 'restarts', 'rk', 'sdc/random', 'adaptive']
     depth = 4 if tier == 'thorough' else 3
     refs = dict(zip(ALL, common.pmap(reference, ALL, nproc=min(8, common.NPROC))))
     # the reference itself must be reproducible: second subprocess for two configurations
